@@ -13,7 +13,8 @@ VERIF = Path(__file__).resolve().parents[2]
 REPO = Path(os.environ.get("VERIF_REPO", "/repo")).resolve()
 REPO_SRC = REPO / "src"
 WORK = Path(os.environ.get("VERIF_WORK", str(VERIF / ".work")))
-EVIDENCE_DIR = VERIF / "evidence"
+# evidence describes /repo; a run against a scratch copy (sensitivity experiments) must not overwrite it
+EVIDENCE_DIR = VERIF / "evidence" if "VERIF_REPO" not in os.environ else WORK / "evidence-scratch"
 WITNESS_DIR = VERIF / "witness"
 KNOWN_FINDINGS = VERIF / "known_findings.json"
 
